@@ -4,11 +4,11 @@ from __future__ import annotations
 import ast
 import re
 
-from sa.astx import call_attr, call_name, module_consts, names_read, src, statements, walk_local
+from sa.astx import call_name, module_consts, names_read, src, walk_local
 from sa.domains import escaper_problems, replace_chain
 from sa.selftest import Mutant, Silent
 from sa.source import AnalysisError, class_assigns, methods
-from sa.props._lib_i import (sect, COMPAT, BlockRaised, Model, NotPure, Raised, eval_block, interp, module_env, peval, words)
+from sa.props._lib_i import (sect, COMPAT, BlockRaised, NotPure, Raised, eval_block, interp, module_env, peval, words)
 
 PROPERTY = "C43"
 IRC = "words/protocols/irc.py"
@@ -28,14 +28,6 @@ ASSUMPTIONS = [
     "textwrap.wrap(text, width) returns chunks of at most width characters that together contain all non-whitespace characters in order (stdlib)",
     "re.sub semantics of the stdlib; the repo's pattern string is evaluated, not the repo's code",
 ]
-
-
-class FakeMatch(Model):
-    def __init__(self, text):
-        self.text = text
-
-    def group(self, *a):
-        return self.text
 
 
 def _module_loops(mod, target_name):
@@ -73,12 +65,13 @@ def _check_quoting(ctx, env, cenv, label, qname, dqname, esc_name, table_name, d
                   f"{fch!r} has no row and reaches the wire raw" + (" (a raw CR / LF ends the IRC line early)" if fch in "\r\n" else ""))
     # -- de-quote table derived as the inverse
     loops = _module_loops(mod, dtable_name)
-    ctx.need(loops, f"module-level loop filling {dtable_name}")
     e2 = dict(env)
-    e2[dtable_name] = {}
-    for lp in loops:
-        eval_block([lp], e2)
-    dtable = e2[dtable_name]
+    if loops:                      # filled by a module-level loop: evaluate it; otherwise the module-level expression was evaluated already
+        e2[dtable_name] = {}
+        for lp in loops:
+            eval_block([lp], e2)
+    dtable = e2.get(dtable_name)
+    ctx.need(isinstance(dtable, dict), f"module-level table {dtable_name}")
     want = {v[-1]: k for k, v in table.items()}
     ctx.check(dtable == want, "quote/dequote-table-inverse", f"{base}{dtable_name}",
               f"the de-quote table evaluates to {dtable!r}; the inverse of {table_name} is {want!r}")
@@ -86,51 +79,38 @@ def _check_quoting(ctx, env, cenv, label, qname, dqname, esc_name, table_name, d
     env[dtable_name] = dtable
     # -- quoter as an ordered rewrite system
     fq = ctx.func(IRC, qname)
-    table_bad = esc not in table or any(fch not in table for fch in forbidden)
+    quote = interp(fq, COMPAT, env)
+    for k, v in table.items():
+        try:
+            got = quote(k)
+        except (Raised, BlockRaised) as ex:
+            got = f"<raises {ex}>"
+        ctx.check(got == v, "quote/escaper-rows", f"{base}{qname} | applies row {k!r}",
+                  f"{qname}({k!r}) gives {got!r}, the table row says {v!r}" + (": the character reaches the wire raw" if got == k else ": a later step re-escapes the output of an earlier one"))
     try:
         pairs = replace_chain(fq, cenv)
-    except AnalysisError:
-        if not table_bad:
-            raise
-        ctx.note(f"{qname}: rewrite steps not evaluable because {table_name} lacks a row (already reported); quoter checks skipped")
-        return []
-    ctx.need(pairs, f"replace chain of {qname}")
-    probs = escaper_problems(pairs, esc)
-    ctx.check(not probs, "quote/escaper-order", base + qname, "; ".join(probs))
-    olds = [o for o, _ in pairs]
-    for k in table:
-        ctx.check(k in olds, "quote/escaper-rows", f"{base}{qname} | applies row {k!r}", f"{qname} never rewrites {k!r} although {table_name} has a row for it: it is sent raw")
-    for o, n in pairs:
-        ctx.check(table.get(o) == n, "quote/escaper-rows", f"{base}{qname} | rewrite of {o!r}", f"{qname} rewrites {o!r} to {n!r}, the table says {table.get(o)!r}")
-    # -- de-quoter: regex + substitution function
+    except AnalysisError as ex:
+        pairs = []
+        ctx.note(f"{qname}: not a plain replace chain ({ex}); the rewrite order is decided by evaluation only")
+    if pairs:
+        probs = escaper_problems(pairs, esc)
+        ctx.check(not probs, "quote/escaper-order", base + qname, "; ".join(probs))
+    else:
+        # order decided semantically: quoting a text made of every key must be the concatenation of the rows
+        text = "".join(table)
+        try:
+            got = quote(text)
+        except (Raised, BlockRaised) as ex:
+            got = f"<raises {ex}>"
+        ctx.check(got == "".join(table[c] for c in text), "quote/escaper-order", base + qname,
+                  f"{qname}({text!r}) gives {got!r} instead of {''.join(table[c] for c in text)!r}: the escape unit introduced by one rewrite is escaped again by a later one")
+    # -- de-quoter: evaluated as a whole (its regex, if any, is a stdlib object built from the module's constant pattern)
     fd = ctx.func(IRC, dqname)
-    rets = [st for st in fd.body if isinstance(st, ast.Return)]
-    ctx.need(len(rets) == 1 and isinstance(rets[0].value, ast.Call) and call_attr(rets[0].value) == "sub" and len(rets[0].value.args) == 2, f"return <regex>.sub(fn, s) in {dqname}")
-    call = rets[0].value
-    rx_name = src(call.func.value)
-    rx_val = mod.module_assign(rx_name)
-    ctx.need(isinstance(rx_val, ast.Call) and call_name(rx_val) == "re.compile" and rx_val.args, f"{rx_name} = re.compile(...)")
-    try:
-        pattern = peval(rx_val.args[0], env, {"re.escape": re.escape})
-    except (NotPure, Raised) as ex:
-        raise AnalysisError(f"C43: pattern of {rx_name} not evaluable ({ex})")
-    flags = 0
-    for a in rx_val.args[1:]:
-        for nm in re.findall(r"re\.([A-Z]+)", src(a)):
-            flags |= getattr(re, nm)
-    rx = re.compile(pattern, flags)
-    shape_ok = all((m := rx.match(esc + t + "Z")) is not None and m.end() == 2 for t in list(want) + [esc, "a"]) and rx.match("a" + esc) is None and rx.fullmatch(esc) is None
-    ctx.check(shape_ok, "dequote/regex", f"{base}{rx_name}", f"pattern {pattern!r} does not match exactly the escape unit followed by one character")
-    subs = [st for st in fd.body if isinstance(st, ast.FunctionDef)]
-    ctx.need(len(subs) == 1 and isinstance(call.args[0], ast.Name) and call.args[0].id == subs[0].name and src(call.args[1]) == fd.args.args[0].arg,
-             f"substitution function of {dqname}")
-    subfn = interp(subs[0], COMPAT, env)
-    quote = interp(fq, COMPAT, env)
-
-    def dequote(text):
-        return rx.sub(lambda m: subfn(FakeMatch(m.group())), text)
-
-    alphabet = sorted(set(table) | set(want) | {"a"})
+    dequote = interp(fd, COMPAT, env)
+    for rx_name, rx in sorted((k, v) for k, v in env.items() if isinstance(v, re.Pattern) and any(isinstance(n, ast.Name) and n.id == k for n in ast.walk(fd))):
+        shape_ok = all((m := rx.match(esc + t + "Z")) is not None and m.end() == 2 for t in list(want) + [esc, "a"]) and rx.match("a" + esc) is None and rx.fullmatch(esc) is None
+        ctx.check(shape_ok, "dequote/regex", f"{base}{rx_name}", f"pattern {rx.pattern!r} does not match exactly the escape unit followed by one character")
+    alphabet = sorted(set(table) | set(want) | {"a", "\x01", "\\", "\x10", "\x00", "\r", "\n"})
     bad_rt = bad_out = None
     n = 0
     for w in words(alphabet, 3):
@@ -149,7 +129,7 @@ def _check_quoting(ctx, env, cenv, label, qname, dqname, esc_name, table_name, d
               bad_rt and f"{qname}({bad_rt[0]!r}) = {bad_rt[1]!r} is read back by {dqname} as {bad_rt[2]!r}", detail=f"{n} words over {len(alphabet)} characters, length <= 3")
     ctx.check(bad_out is None, "quote/output-alphabet", f"{base}{qname} | forbidden characters removed",
               bad_out and f"{qname}({bad_out[0]!r}) = {bad_out[1]!r} still contains a character that must not appear on the wire")
-    return pairs
+    return [(k, v) for k, v in table.items()]
 
 
 def _check_send_path(ctx, env, low_pairs):
@@ -218,6 +198,7 @@ def _check_send_path(ctx, env, low_pairs):
     _, p_type, p_user, p_msg, p_len = params
     bad = bad_send = None
     cases = 0
+    LONG = "hello world " * 20
     for mt in ("PRIVMSG", "NOTICE"):
         for user in ("u", "#chan"):
             prefix = f"{mt} {user} :"
@@ -230,7 +211,7 @@ def _check_send_path(ctx, env, low_pairs):
                 fn = dict(COMPAT)
                 fn["split"] = fake_split
                 try:
-                    r = eval_block(f.body, {"self": object(), p_type: mt, p_user: user, p_msg: "hello world", p_len: length}, funcs=fn,
+                    r = eval_block(f.body, {**env, "self": object(), p_type: mt, p_user: user, p_msg: LONG, p_len: length}, funcs=fn,
                                    record={"self.sendLine"})
                 except BlockRaised as ex:
                     raise AnalysisError(f"{q}: not evaluable: {ex}")
@@ -239,7 +220,9 @@ def _check_send_path(ctx, env, low_pairs):
                     if seen and bad is None:
                         bad = (mt, user, length, "raises after splitting")
                     continue
-                if len(seen) != 1 or seen[0][0] != "hello world":
+                if not seen:
+                    continue        # a path that does not go through split(): judged by the evaluation on real messages below
+                if len(seen) != 1 or seen[0][0] != LONG:
                     raise AnalysisError(f"{q}: split() not called exactly once with the message")
                 width = seen[0][1]
                 if width + len(prefix) + 2 > length and bad is None:
@@ -287,23 +270,60 @@ def _check_send_path(ctx, env, low_pairs):
                       f"textwrap option {k.arg}={src(k.value)}: " + ("words longer than the width are sent unsplit and exceed the limit" if k.arg == "break_long_words"
                                                                        else "content beyond the cap is dropped"))
     ctx.ok("split/wrap-arguments", q, f"{len(wraps)} wrap call(s)")
-    # -- F43: unit of measurement
+    # -- real messages through _sendMessage -> split -> _reallySendLine (repository functions interpreted, textwrap / str methods delegated to CPython)
     f = ctx.func(IRC, "IRCClient._sendMessage")
     q = base + "_sendMessage"
-    splits = [c for c in ast.walk(f) if isinstance(c, ast.Call) and call_name(c) == "split"]
-    raw_text = any(c.args and src(c.args[0]) == p_msg for c in splits) and not any(isinstance(st, (ast.Assign, ast.AugAssign)) and p_msg in
-                                                                                     [getattr(t, "id", None) for t in (st.targets if isinstance(st, ast.Assign) else [st.target])]
-                                                                                     for st in statements(f))
-    char_measure = bool(wraps)
     rs = ctx.func(IRC, "IRCClient._reallySendLine")
-    encodes = [c for c in ast.walk(rs) if isinstance(c, ast.Call) and call_attr(c) == "encode" and c.args and isinstance(c.args[0], ast.Constant)
-               and str(c.args[0].value).lower().replace("_", "-") in ("utf-8", "utf8", "utf-16", "utf-32")]
-    expanding = [(o, n) for o, n in low_pairs if len(n) > len(o)]
-    quotes_after = any(isinstance(c, ast.Call) and call_name(c) == "lowQuote" for c in ast.walk(rs))
-    armed = raw_text and char_measure and (bool(encodes) or (quotes_after and bool(expanding)))
-    ctx.check(not armed, "limit/unit-agreement", q + " | <split width in characters, limit in octets>",
-              "chunks are measured by textwrap in characters of the raw text, but the limit is in octets of the line on the wire: after the split "
-              f"_reallySendLine low-quotes ({len(expanding)} rewrites double a character) and UTF-8 encodes (1 character -> up to 4 octets), so a line can exceed the limit")
+    rline = rs.args.args[1].arg
+    real = dict(COMPAT)
+    real["lowQuote"] = interp(ctx.func(IRC, "lowQuote"), COMPAT, env)
+    real["split"] = interp(ctx.func(IRC, "split"), COMPAT, env)
+
+    def wire_of(text):
+        r = eval_block(rs.body, {**env, rline: text, "self": object()}, funcs=real, record={"basic.LineReceiver.sendLine"})
+        return b"".join(a[-1] + dval for _, a in r.calls if isinstance(a[-1], bytes))
+
+    WS = "\t\n\x0b\x0c\r "
+    plain = ["hello world", "a\rb", "a\nb", "a\r\nb", "\r", "\n", "\r\n", "ab cd ef gh ij", "x" * 30, "", " ", "a  b", "tab\tsep", "trailing\r", "\rleading", "a\rb\rc\rd",
+             "one\ntwo three\n\nfour"]
+    expanding = ["a\x10b\x10c", "\x10" * 8, "\x00" * 4, "\u00e9" * 6, "\u20ac \u20ac\u20ac", "x\u00e9 y\x10"]
+    prefix = "PRIVMSG u :"
+    over_plain = over_exp = lost = None
+    n = 0
+    for group, texts in (("plain", plain), ("expanding", expanding)):
+        for text in texts:
+            for k in (1, 2, 3, 4, 5, 8, 13, 40):
+                length = len(prefix) + 2 + k
+                try:
+                    r = eval_block(f.body, {**env, "self": object(), p_type: "PRIVMSG", p_user: "u", p_msg: text, p_len: length}, funcs=real, record={"self.sendLine"})
+                except BlockRaised as ex:
+                    raise AnalysisError(f"{q}: not evaluable for message {text!r}: {ex}")
+                if r.raised:
+                    raise AnalysisError(f"{q}: raises for message {text!r}, length {length}: {r.raised}")
+                n += 1
+                lines = [a[0] for _, a in r.calls]
+                parts = [ln[len(prefix):] if isinstance(ln, str) and ln.startswith(prefix) else None for ln in lines]
+                if None in parts:
+                    lost = lost or (text, length, lines, "a line does not start with the command prefix")
+                    continue
+                if "".join(c for c in "".join(parts) if c not in WS) != "".join(c for c in text if c not in WS):
+                    lost = lost or (text, length, lines, "the non-whitespace characters of the message parts differ from the message's")
+                for ln in lines:
+                    w = wire_of(ln)
+                    if len(w) > length or b"\r" in w[:-2] or b"\n" in w[:-2]:
+                        if group == "plain":
+                            over_plain = over_plain or (text, length, w)
+                        else:
+                            over_exp = over_exp or (text, length, w)
+    ctx.check(lost is None, "split/content-preserved", q + " | message parts carry the message",
+              lost and f"msg('u', {lost[0]!r}, length={lost[1]}) sends {lost[2]!r}: {lost[3]}", detail=f"{n} (message, length) cases")
+    ctx.check(over_plain is None, "limit/plain-text-within-budget", q + " | <ASCII text without characters that quoting expands>",
+              over_plain and f"msg('u', {over_plain[0]!r}, length={over_plain[1]}) writes {over_plain[2]!r}: {len(over_plain[2])} octets including CR LF (or a raw line break inside the "
+              "line); every line must fit the limit - CR / LF in the message are break points or white space for the splitter, they must not reach the quoting step")
+    ctx.check(over_exp is None, "limit/unit-agreement", q + " | <split width in characters, limit in octets>",
+              over_exp and f"msg('u', {over_exp[0]!r}, length={over_exp[1]}) writes {over_exp[2]!r}: {len(over_exp[2])} octets including CR LF. Chunks are measured in characters of the "
+              "raw text, but the limit is in octets of the line on the wire: after the split the line is low-quoted (a quoted character doubles) and UTF-8 encoded "
+              "(1 character -> up to 4 octets)")
 
 
 def check(ctx):
@@ -338,12 +358,29 @@ MUTANTS = [
     Mutant("notice-drops-length", IRC, '        self._sendMessage("NOTICE", user, message, length)\n', '        self._sendMessage("NOTICE", user, message)\n',
            expect_rule="send/siblings-forward-length"),
     Mutant("long-words-unsplit", IRC, "textwrap.wrap(line, length)]", "textwrap.wrap(line, length, break_long_words=False)]", expect_rule="split/wrap-arguments"),
+    Mutant("short-message-bypasses-splitter", IRC, "        for line in split(message, length - minimumLength):\n            self.sendLine(fmt + line)\n",
+           "        room = length - minimumLength\n        if message and NL not in message and len(message) <= room:\n            chunks = [message]\n"
+           "        else:\n            chunks = split(message, room)\n        for line in chunks:\n            self.sendLine(fmt + line)\n", expect_rule="limit/plain-text-within-budget"),
+    Mutant("ctcpquote-iterates-table-order", IRC, "    for c in (X_QUOTE, X_DELIM):\n        s = s.replace(c, xQuoteTable[c])\n", "    for c, quoted in xQuoteTable.items():\n        s = s.replace(c, quoted)\n",
+           expect_rule="quote/"),
     Mutant("heartbeat-writes-raw", IRC, '        self.sendLine("PING " + self.hostname)\n', '        self.transport.write(("PING " + self.hostname).encode("utf-8") + b"\\r\\n")\n',
            expect_rule="send/single-wire-path"),
 ]
 SILENT = [
     Silent("lowquote-explicit-chain", IRC, "    for c in (M_QUOTE, NUL, NL, CR):\n        s = s.replace(c, mQuoteTable[c])\n    return s\n\n\ndef lowDequote",
            "    return s.replace(M_QUOTE, mQuoteTable[M_QUOTE]).replace(CR, mQuoteTable[CR]).replace(NUL, mQuoteTable[NUL]).replace(NL, mQuoteTable[NL])\n\n\ndef lowDequote"),
+    Silent("ctcpquote-ordered-tuple-with-local", IRC, "    for c in (X_QUOTE, X_DELIM):\n        s = s.replace(c, xQuoteTable[c])\n",
+           "    for c in (X_QUOTE, X_DELIM):\n        quoted = xQuoteTable[c]\n        s = s.replace(c, quoted)\n"),
+    Silent("lowquote-sorted-items-escape-first", IRC, "    for c in (M_QUOTE, NUL, NL, CR):\n        s = s.replace(c, mQuoteTable[c])\n",
+           "    for c, quoted in sorted(mQuoteTable.items(), key=lambda kv: kv[0] != M_QUOTE):\n        s = s.replace(c, quoted)\n"),
+    Silent("fast-path-only-when-splitter-would-not-change-it", IRC, "        for line in split(message, length - minimumLength):\n            self.sendLine(fmt + line)\n",
+           "        room = length - minimumLength\n        if message.isalnum() and len(message) <= room:\n            chunks = [message]\n"
+           "        else:\n            chunks = split(message, room)\n        for line in chunks:\n            self.sendLine(fmt + line)\n"),
+    Silent("dequote-table-as-comprehension", IRC, "mDequoteTable = {}\nfor k, v in mQuoteTable.items():\n    mDequoteTable[v[-1]] = k\ndel k, v\n",
+           "mDequoteTable = {quoted[-1]: plain for plain, quoted in mQuoteTable.items()}\n"),
+    Silent("dequote-without-regex", IRC, "    return xEscape_re.sub(sub, s)\n",
+           "    out = []\n    i = 0\n    while i < len(s):\n        if s[i] == X_QUOTE and i + 1 < len(s):\n            out.append(xDequoteTable.get(s[i + 1], s[i + 1]))\n            i += 2\n"
+           "        else:\n            out.append(s[i])\n            i += 1\n    return \"\".join(out)\n"),
     Silent("budget-guard-rewritten", IRC, "        if length <= minimumLength:\n", "        if not length > minimumLength:\n"),
     Silent("dequote-table-comprehension-free", IRC, "for k, v in mQuoteTable.items():\n    mDequoteTable[v[-1]] = k\n", "for k, v in mQuoteTable.items():\n    mDequoteTable[v[1:]] = k\n"),
     Silent("notice-length-keyword", IRC, '        self._sendMessage("NOTICE", user, message, length)\n', '        self._sendMessage("NOTICE", user, message, length=length)\n'),
